@@ -312,10 +312,12 @@ fn build_side(label: &'static str, path: &str, opts: &Options) -> Result<Side, S
     let t = automata::tables(&l.normalized, &opts.start)?;
     let mut prod_base_actions = Vec::new();
     let mut all_user = BTreeSet::new();
-    for p in &t.prods {
+    for (i, p) in t.prods.iter().enumerate() {
         let mut b = BTreeSet::new();
         facts::base_actions(&l.normalized, p.action, &mut b);
-        all_user.extend(b.iter().cloned());
+        if t.prod_reachable[i] {
+            all_user.extend(b.iter().cloned());
+        }
         prod_base_actions.push(b.into_iter().collect());
     }
     let mut side = Side {
@@ -349,8 +351,11 @@ fn coverage_json(out: &mut Map<String, Value>, s: &Side) {
     let mut reduced = Vec::new();
     let mut never = Vec::new();
     let mut acts: BTreeSet<usize> = BTreeSet::new();
-    // productions that can never be reduced from this start symbol are still listed as "never"
+    // only productions of nonterminals reachable from the start symbol count
     for (i, p) in s.t.prods.iter().enumerate() {
+        if !s.t.prod_reachable[i] {
+            continue;
+        }
         if s.reduced[i] {
             reduced.push(json!(prod_text(p)));
             acts.extend(s.prod_base_actions[i].iter().cloned());
@@ -375,7 +380,7 @@ fn side_json(s: &Side) -> Value {
         "algorithm": s.algorithm,
         "states": s.t.n_states,
         "terminals": s.t.terminal_names,
-        "productions": s.t.prods.len(),
+        "productions": s.t.prod_reachable.iter().filter(|r| **r).count(),
         "dropped_error_alternatives": s.dropped_alternatives,
         "stack_nodes": s.parent.len(),
     })
